@@ -633,8 +633,18 @@ def r14o(ctx: Context) -> None:
                     return True
         return False
 
-    def reads(node: ast.AST) -> bool:
-        return any(isinstance(sub, ast.Attribute) and sub.attr == "current_fix_line" and isinstance(sub.ctx, ast.Load) for sub in ast.walk(node))
+    def reads(node: ast.AST, holder: Optional[FuncInfo] = None, depth: int = 0) -> bool:
+        """the statement reads the fix line: directly, or through a helper of the manager that does"""
+        if any(isinstance(sub, ast.Attribute) and sub.attr == "current_fix_line" and isinstance(sub.ctx, ast.Load) for sub in ast.walk(node)):
+            return True
+        if holder is not None and depth < 2:
+            for call in [c for c in ast.walk(node) if isinstance(c, ast.Call)]:
+                site = site_for(prog, holder, call)
+                if site is not None and len(site.targets) == 1 and site.targets[0].cls == manager and not empties(holder, call):
+                    helper = site.targets[0]
+                    if any(reads(sub, helper, depth + 1) for sub in helper.node.body):  # type: ignore[attr-defined]
+                        return True
+        return False
 
     checked = 0
     for callback in ("next_line", "completed_file", "next_token", "starting_new_file"):
@@ -644,7 +654,7 @@ def r14o(ctx: Context) -> None:
         for loop in [n for n in walk_local(dispatcher.node) if isinstance(n, ast.For)]:
             if not any(isinstance(c, ast.Call) and isinstance(c.func, ast.Attribute) and c.func.attr == callback and isinstance(c.func.value, ast.Attribute) and c.func.value.attr == "plugin_instance" for c in ast.walk(loop)):
                 continue
-            if not reads(loop):
+            if not any(reads(stmt, dispatcher) for stmt in loop.body):
                 continue
             checked += 1
             body_fn = ast.FunctionDef(name="<body>", args=ast.arguments(posonlyargs=[], args=[], kwonlyargs=[], kw_defaults=[], defaults=[]), body=loop.body, decorator_list=[], lineno=loop.lineno, col_offset=0)
@@ -668,14 +678,14 @@ def r14o(ctx: Context) -> None:
                             break
                         if text.endswith("in_fix_mode") and label == "false":
                             scan_mode = True
-                        if called and not emptied and reads(node.ast_node):
+                        if called and not emptied and reads(node.ast_node, dispatcher):
                             stale = node.ast_node
                     elif node.kind == "stmt":
                         if not called and empties(dispatcher, node.ast_node):
                             emptied = True
                         if any(isinstance(c, ast.Call) and isinstance(c.func, ast.Attribute) and c.func.attr == callback and isinstance(c.func.value, ast.Attribute) and c.func.value.attr == "plugin_instance" for c in ast.walk(node.ast_node)):
                             called = True
-                        elif called and not emptied and reads(node.ast_node):
+                        elif called and not emptied and reads(node.ast_node, dispatcher):
                             stale = node.ast_node
                 if consistent and not scan_mode and stale is not None:
                     witness = stale
